@@ -32,7 +32,7 @@ def label_value(label):
 class C18(Check):
     ID = 'C18'
     TRACE_FILES = ('extparams.py', 'mixins.py', 'modulebase.py')
-    TIERS = {'quick': {'runs': 3000, 'wall': 70}, 'thorough': {'runs': 300000, 'wall': 800}}
+    TIERS = {'quick': {'runs': 12000, 'wall': 70}, 'thorough': {'runs': 300000, 'wall': 800}}
     RULE = ('case = generated layout (struct with 2..3 members, combined or member access methods; float-enum label set; '
             'limit configuration min/max/limits; 1..3 controllers on one output) + history of <= 25 operations issued by '
             'a wire client (change/read of struct, member, float, index, limits incl. inverted, targets) or by the driver '
